@@ -221,7 +221,7 @@ func main() {
 		per[n] = map[string]any{"runs": st.Runs, "traces_submitted": st.TracesSubmitted, "traces_accepted": st.TracesAccepted, "states_validated": st.StatesValidated,
 			"rejected": st.Rejected, "spec_assertion_reachable": st.AssertVerdicts, "inconclusive": st.Inconclusive, "labels_committed": st.Labels, "distinct_labels_validated": len(st.Shapes)}
 	}
-	for _, p := range []string{"replicatedkv", "raftres/raft", "raftres/kv"} {
+	for _, p := range []string{"raftres/raft", "raftres/kv"} {
 		without = append(without, p)
 	}
 	r.Finish(common.Coverage{
